@@ -2,7 +2,7 @@
 
 use crate::adapters::SyntaxHighlighterAdapter;
 use crate::html;
-use std::collections::{hash_map, HashMap};
+use std::collections::{btree_map, BTreeMap, HashMap};
 use std::io::{self, Write};
 use syntect::easy::HighlightLines;
 use syntect::highlighting::{Color, ThemeSet};
@@ -128,20 +128,23 @@ impl SyntaxHighlighterAdapter for SyntectAdapter {
         output: &mut dyn Write,
         attributes: HashMap<String, String>,
     ) -> io::Result<()> {
+        // sorted, so that the attribute order does not depend on the hash seed
+        let attributes: BTreeMap<String, String> = attributes.into_iter().collect();
         html::write_opening_tag(output, "code", attributes)
     }
 }
 
 struct SyntectPreAttributes {
     syntect_style: String,
-    attributes: HashMap<String, String>,
+    // sorted, so that the attribute order does not depend on the hash seed
+    attributes: BTreeMap<String, String>,
 }
 
 impl SyntectPreAttributes {
     fn new(attributes: HashMap<String, String>, syntect_style: &str) -> Self {
         Self {
             syntect_style: syntect_style.into(),
-            attributes,
+            attributes: attributes.into_iter().collect(),
         }
     }
 
@@ -155,7 +158,7 @@ impl SyntectPreAttributes {
 }
 
 struct SyntectPreAttributesIter<'a> {
-    iter_mut: hash_map::IterMut<'a, String, String>,
+    iter_mut: btree_map::IterMut<'a, String, String>,
     syntect_style: &'a str,
     style_written: bool,
 }
